@@ -19,7 +19,8 @@ import warnings
 from .. import decgen, names, snapshot
 from .. import declang as L
 
-OPS = ["mothers", "modes", "global", "chains", "chains_stable", "expand", "print", "repr", "grammar", "number", "mutate", "mutate_deep", "reparse", "reparse_off_on"]
+OPS = ["mothers", "modes", "global", "chains", "chains_stable", "expand", "print", "repr", "grammar", "number", "mutate", "mutate_deep", "reparse", "reparse_off_on",
+       "other_instance"]
 RULE = ("one case = one history (text, operation sequence) on one parser instance, compared with a fresh instance after every step; non-trivial = the history "
         "contains a mutation of a returned value or a re-parse, and the file has >= 1 derived table; distinct by hash of (text, operations)")
 ANCHORS = ["decaylanguage.dec.dec:DecFileParser._add_decays_to_be_copied", "decaylanguage.dec.dec:DecFileParser._add_charge_conjugate_decays",
@@ -29,7 +30,7 @@ WORKERS = {"quick": 8, "thorough": 16}
 REQUIRED = {**{f"op:{o}": 30 for o in OPS}, "mutated:list": 20, "mutated:dict": 20, "mutated:nested-chain": 20, "mutated:list-of-lists": 10,
             "file:CopyDecay+CDecay": 10, "file:copy-is-cdecay-source": 5, "identity-walk:derived-tables": 20, "reparse": 30, "steps-compared": 1000,
             "exhaustive-short-histories": 100}
-EXHAUSTIVE_NOTE = "all histories of length 2 (quick) / 3 (thorough) over the 14 operation kinds on 5 fixed files"
+EXHAUSTIVE_NOTE = "all histories of length 2 (quick) / 3 (thorough) over the 15 operation kinds on 5 fixed files"
 ASSUMPTIONS = ["grammar_info() returns the live options dict by design: it is called but never mutated", "a CopyDecay source is a Decay-block mother"]
 
 
@@ -185,6 +186,10 @@ class Hist:
                         mutate(ctx, last, deep=False)
                     elif op == "mutate_deep":
                         mutate(ctx, last, deep=True)
+                    elif op == "other_instance":
+                        # another parser instance in the same interpreter (other text, shared names): must not disturb this one
+                        q = other_instance(ctx, self.text, i)
+                        last = q.build_decay_chains(q.list_decay_mother_names()[0]) if q.list_decay_mother_names() else None
                     elif op == "reparse":
                         p.parse(mode_on) if not mode_on else p.parse()
                         ctx.hit("reparse")
@@ -210,6 +215,31 @@ class Hist:
                 ctx.violate("history:differs-from-fresh:after-" + op, f"after step {i} ({op}): " + diff_keys(S_on, s), {**wit, "step": i})
                 return
         ctx.mon("C08.history_equals_fresh_instance")
+
+
+_others: dict = {}
+
+
+def other_instance(ctx, text, i):
+    """A second DecFileParser over a *variation* of the text: first Decay block dropped, a Define changed, one more user model registered."""
+    key = (hash(text), i % 3)
+    stmts = L.read(text, L.published_models())
+    blocks = [s for s in stmts if s["k"] == "Decay"]
+    if i % 3 == 0 and len(blocks) > 1:
+        stmts = [s for s in stmts if s is not blocks[0]]
+    elif i % 3 == 1:
+        stmts = [dict(s, value="0.25") if s["k"] == "Define" else s for s in stmts]
+    else:
+        stmts = [dict(s, b=blocks[-1]["m"]) if s["k"] == "CopyDecay" and blocks else s for s in stmts]
+    from decaylanguage import DecFileParser  # noqa: PLC0415
+
+    q = DecFileParser.from_string(L.render(stmts))
+    q.load_additional_decay_models("OTHER_MODEL")
+    q.parse()
+    q.dict_definitions()
+    q.dict_aliases()
+    _others[key] = q        # kept alive, so that instance-level and module-level state both persist
+    return q
 
 
 def diff_keys(a, b):
